@@ -8,10 +8,87 @@ S->C : gradient() and spatial_derivatives() of the real regressor, single and ba
 """
 import numpy as np
 
-from harness.core import Check
+from harness.core import Check, seed
 from harness import gpexact as GE
 from harness import gpkit as G
 from harness import symlin as SL
+
+
+def fd_part(ck, tier):
+    """Problems outside the exact families, judged by the property's own relation: the predicted mean of the gradient and the reported
+    derivative of the variance are the (central finite-difference) derivatives of the regressor's own predictive mean and variance.
+    (a) a user-defined mean function with ONE hyper-parameter, m(x) = theta0 * (1 + x_0 / 2); (b) QuadraticMean with very small quadratic
+    coefficients on coordinates up to 1e6; (c) LinearMean in two dimensions."""
+    import warnings
+    from inference.gp import GpRegressor, SquaredExponential
+    from inference.gp.mean import MeanFunction, QuadraticMean, LinearMean
+
+    class Ramp(MeanFunction):
+        def __init__(self):
+            self.bounds = [(-10.0, 10.0)]
+            self.n_params = 1
+            self.hyperpar_labels = ["Ramp amplitude"]
+
+        def pass_spatial_data(self, x):
+            self.x = np.asarray(x, dtype=float)
+
+        def estimate_hyperpar_bounds(self, y):
+            pass
+
+        def __call__(self, q, theta):
+            return float(theta[0] * (1.0 + 0.5 * np.asarray(q, dtype=float).reshape(-1)[0]))
+
+        def build_mean(self, theta):
+            return theta[0] * (1.0 + 0.5 * self.x[:, 0])
+
+        def mean_and_gradients(self, theta):
+            return self.build_mean(theta), [1.0 + 0.5 * self.x[:, 0]]
+
+        def spatial_gradient(self, q, theta):
+            g = np.zeros(self.x.shape[1])
+            g[0] = 0.5 * theta[0]
+            return g
+    rng = np.random.default_rng(seed() + 16)
+    problems = []
+    x1 = np.array([0.0, 0.7, 1.9, 3.2, 4.0])
+    problems.append(("user-defined one-parameter mean, 1-D", x1, np.sin(x1) + 0.5 * x1, Ramp(), np.array([0.8, 0.2, 0.1]), np.array([[0.4], [2.5], [3.7]]), 1.0))
+    x2 = rng.uniform(-1, 1, size=(6, 2))
+    problems.append(("user-defined one-parameter mean, 2-D", x2, x2[:, 0] - x2[:, 1] ** 2, Ramp(), np.array([0.8, 0.2, 0.1, -0.2]), np.array([[0.1, 0.2], [-0.5, 0.6]]), 1.0))
+    xb = np.array([0.0, 2.0e5, 4.5e5, 7.0e5, 1.0e6])
+    problems.append(("QuadraticMean, tiny quadratic coefficient, coordinates to 1e6", xb, 1e-6 * xb + 3e-9 * (xb - 5e5) ** 2 * 1e-3, QuadraticMean(),
+                     np.array([0.5, 1e-6, 3e-9, 0.0, np.log(2.0e5)]), np.array([[1.0e5], [6.3e5], [9.9e5]]), 1.0e5))
+    problems.append(("LinearMean, 2-D", x2, x2[:, 0] - x2[:, 1], LinearMean(), np.array([0.3, 0.9, -1.1, 0.1, -0.2, 0.3]), np.array([[0.1, 0.2], [-0.5, 0.6]]), 1.0))
+    for label, x, y, mean, hp, Q, hscale in problems:
+        ck.case(("fd", label))
+        try:
+            with warnings.catch_warnings(), np.errstate(all="ignore"):
+                warnings.simplefilter("ignore")
+                gp = GpRegressor(x=x, y=y, y_err=np.full(len(y), 0.1), hyperpars=hp, kernel=SquaredExponential, mean=mean)
+                d = Q.shape[1]
+                gm, gc = gp.gradient(Q if d > 1 else Q[:, 0])
+                dm, dv = gp.spatial_derivatives(Q if d > 1 else Q[:, 0])
+                gm, dm, dv = (np.asarray(a, dtype=float).reshape(len(Q), d) for a in (gm, dm, dv))
+                h = 1e-4 * hscale
+                fd_m, fd_v = np.zeros((len(Q), d)), np.zeros((len(Q), d))
+                for i, q in enumerate(Q):
+                    for k in range(d):
+                        e = np.zeros(d)
+                        e[k] = h
+                        qa, qb = (q + e).reshape(1, d), (q - e).reshape(1, d)
+                        (ma, sa), (mb, sb) = gp(qa if d > 1 else qa[:, 0]), gp(qb if d > 1 else qb[:, 0])
+                        fd_m[i, k] = (float(ma[0]) - float(mb[0])) / (2 * h)
+                        fd_v[i, k] = (float(sa[0]) ** 2 - float(sb[0]) ** 2) / (2 * h)
+        except Exception as ex:
+            ck.violation("derivative prediction raised", {"problem": label, "error": repr(ex)[:300]}, site="GpRegressor.gradient")
+            continue
+        sm = max(float(np.max(np.abs(fd_m))), 1e-12)
+        sv = max(float(np.max(np.abs(fd_v))), 1e-12)
+        if not (np.all(np.abs(gm - fd_m) <= 1e-5 * sm) and np.all(np.abs(dm - fd_m) <= 1e-5 * sm)):
+            ck.violation("predicted mean of the spatial gradient = spatial derivative of the predictive mean (mean-function slope included)",
+                         {"problem": label, "finite_difference_of_the_predictive_mean": fd_m, "gradient": gm, "spatial_derivatives": dm}, site="GpRegressor.gradient:mean")
+        if not np.all(np.abs(dv - fd_v) <= 1e-4 * sv + 1e-9):
+            ck.violation("reported derivative of the predictive variance = spatial derivative of the predictive variance",
+                         {"problem": label, "finite_difference_of_the_predictive_variance": fd_v, "got": dv}, site="GpRegressor.spatial_derivatives:variance")
 
 
 def run(tier):
@@ -130,4 +207,5 @@ def run(tier):
         if len(ck.samples) < 3 and d == 2 and pb["mean"]["k"] != "const":
             ck.sample({**idn, "queries": c["Q"], "spec_gradient_mean": want_gm.tolist(), "spec_gradient_cov_q1": want_gc[0].tolist()})
     ck.traces += len(probs)
+    fd_part(ck, tier)
     return ck.finish()
